@@ -37,7 +37,7 @@ Nothing is partial.  No error site of the model uses a default token `{}` or put
 the only default-token candidate, `fontIdToken` of `format()`, is guarded by its type (`FpOk`).
 -/
 namespace Pory.C18d
-open Pory Pory.Parser Pory.Lexer Pory.LexPos
+open Pory Pory.Parser Pory.ErrLoc Pory.Lexer Pory.LexPos
 
 /-- What the parser reads once its window is exhausted. -/
 abbrev eofOf (toks : List Tok) : Tok := toks.getLastD { type := .EOF }
